@@ -127,6 +127,11 @@ def run_check(pid: str, tier: str, seed: int) -> int:
     exit_code = 0
     replays = []
     rdir = os.path.join(ROOT, "replays", pid)
+    if by_class:
+        os.makedirs(rdir, exist_ok=True)
+        with open(os.path.join(rdir, "_all.json"), "w") as f:
+            json.dump([{k: v.get(k) for k in ("class", "count", "py", "detail", "world", "history", "params")}
+                       for vs in by_class.values() for v in vs], f, indent=1, default=str)
     for c, vs in sorted(new_classes.items(), key=lambda kv: (len(kv[1][0]["history"]), kv[0])):
         vs.sort(key=lambda v: (len(v["history"]), json.dumps(v["history"], default=str)))
         v = vs[0]
